@@ -23,11 +23,16 @@ def GoodFull (cells0 : List Nat) (s : Sys) (c : List Nat) : Prop :=
 theorem full_false :
     ∃ s : Sys, Reachable ({} : Ann) (Sys.init 1 4 cellsA) s ∧
       ∃ c ∈ s.returned, ¬ GoodFull cellsA s c := by
-  sorry
+  obtain ⟨s, hr, hret, hw⟩ := SLA.aba_execution
+  refine ⟨s, hr, [7, 7, 7, 9, 9, 9, 9], by rw [hret]; exact List.mem_singleton.mpr rfl, ?_⟩
+  rintro (h | h | h)
+  · exact absurd h (by decide)
+  · exact absurd h (by decide)
+  · exact absurd (hw _ h) (by decide)
 
 /-- the arithmetic heart: 32767 completed updates bring the 16-bit generation back to where it was -/
 theorem generation_cycle (g : Nat) (hg : g % 2 = 0) (h2 : 2 ≤ g) (h : g < 65536) :
-    (List.range 32767).foldl (fun x _ => genFinish (genStart x)) g = g := by
-  sorry
+    (List.range 32767).foldl (fun x _ => genFinish (genStart x)) g = g :=
+  SLA.iter_cycle g hg h2 h
 
 end ClockBound.C02
